@@ -409,3 +409,26 @@ Proof.
   destruct (doolittle_ip_sym_closed n Ap) as [HPu HPl].
   exact (doolittle_ip_LU_eq_A N Nfield n P M0 Ap A HPu HPl HM0 Hpiv r c Hr Hc).
 Qed.
+
+(* ------------------------------------------------------------------------------------------
+   Factor, then solve (LuDecompositionDoolittleInPlace + LinearSolverInPlace): A x = b. *)
+Theorem doolittle_in_place_factor_then_solve :
+  forall (N : Num)
+    (Nfield : field_theory (n0 N) (n1 N) (nadd N) (nmul N) (nsub N) (nopp N) (ndiv N) (ninv N) eq)
+    n (A : mat N) (Ap : pat) (M0 : mat N) (b : vec N),
+    let P := doolittle_ip_sym n Ap in
+    (forall r c, r < n -> c < n -> P r c = true -> M0 r c = view N Ap A r c) ->
+    let M := doolittle_ip_num N n P M0 in
+    (forall i, i < n -> M i i <> n0 N) ->
+    let x := lin_solve_ip N n P M b in
+    forall r, r < n -> nsum N n (fun c => nmul N (view N Ap A r c) (x c)) = b r.
+Proof.
+  intros N Nfield n A Ap M0 b P HM0 M Hpiv x r Hr.
+  destruct (doolittle_ip_sym_closed n Ap) as [HPu _]. fold P in HPu.
+  apply (lin_solve_ip_Ax_b N Nfield n (view N Ap A) P M b).
+  - intros i Hi. split; [|apply Hpiv; exact Hi].
+    rewrite (HPu i i (le_n i) Hi). rewrite Nat.eqb_refl. destruct (Ap i i); reflexivity.
+  - intros r0 c0 Hr0 Hc0.
+    exact (doolittle_in_place_decomposition_correct N Nfield n A Ap M0 HM0 Hpiv r0 c0 Hr0 Hc0).
+  - exact Hr.
+Qed.
